@@ -417,9 +417,10 @@ class C15(CheckBase):
             # the position is drawn as a fraction and resolved at run time
             nf = ch.weighted([(1, 0), (6, 1), (2, 2)], "nfaults")
             kinds = ch.weighted([
-                (5, ["crash"]), (2, ["enospc", "eio"]),
+                (5, ["crash"]), (2, ["enospc", "eio"]), (2, ["intr"]),
                 (1, ["eacces", "emfile"]), (2, ["crash", "enospc", "eio",
-                                                "eacces", "emfile"])], "kinds")
+                                                "eacces", "emfile",
+                                                "intr"])], "kinds")
             faults = []
             for _ in range(nf):
                 faults.append({"proc": ch.pick(["A", "A", "A", "B"]),
@@ -451,7 +452,7 @@ class C15(CheckBase):
                                "frac": ch.choose(10_000) / 10_000.0,
                                "kfrac": ch.choose(10_000) / 10_000.0,
                                "kind": ch.pick(["crash", "crash", "enospc",
-                                                "eacces", "eio"])})
+                                                "eacces", "eio", "intr"])})
             case["faults"] = faults
             case["snap_fracs"] = [ch.choose(1000) / 1000.0
                                   for _ in range(ch.choose(3))]
@@ -617,7 +618,9 @@ class C15(CheckBase):
         kinds = kinds_by_proc.get(f["proc"], [])
         if not kinds:
             return 0
-        if f["kind"] == "crash":
+        if f["kind"] == "intr":
+            present = sorted(set(kinds))
+        elif f["kind"] == "crash":
             present = sorted(set(kinds)) + ["<end>"]
         else:
             present = sorted(set(kinds) & APPLICABLE[f["kind"]])
@@ -806,7 +809,7 @@ class C15(CheckBase):
                         except SimCrash:
                             out.append([op, tid, ["crashed"], False])
                             raise
-                        except Exception as e:      # noqa: BLE001
+                        except (Exception, KeyboardInterrupt) as e:  # noqa
                             r = outcome_of_exc(e)
                             if isinstance(e, OSError):
                                 r.append(e.errno)
@@ -848,7 +851,8 @@ class C15(CheckBase):
                         ref = reconf_ref
                         cover.add("reconfigured")
                     if r[0] == "exc" and faulted and r[1] in (
-                            "OSError", "PermissionError", "FileNotFoundError"):
+                            "OSError", "PermissionError", "FileNotFoundError",
+                            "KeyboardInterrupt"):
                         cover.add("relaxed:" + r[1])
                         continue        # the op that met the fault may fail
                     if r[:3] != ref[:3]:
